@@ -3,6 +3,7 @@ import RoaringModel.Spec
 import RoaringModel.Lemmas.TreemapAlg
 import RoaringModel.Lemmas.TreemapMulti
 import RoaringModel.Lemmas.TreemapMultiLaws
+import RoaringModel.Lemmas.TreemapMirror
 /-!
 # C11 — 64-bit set algebra, relations and multi-ops are exact (property theorems)
 
@@ -227,6 +228,37 @@ theorem C11_multi_result_ok {ε} (op : MultiOp) (owned : Bool) (ts : List Treema
     ∃ t, multiTry (ε := ε) Ops32.model op owned (ts.map .ok) = .ok t ∧ TWF t ∧
       elems t = Spec.multi (specOf op) (ts.map elems) :=
   ⟨_, C11_result_ok Ops32.model op owned ts, (C11_multi op owned ts hts).1, (C11_multi op owned ts hts).2⟩
+
+/-! ### the step-for-step forms the driver executes (model-fidelity audit)
+
+`isDisjointMirror` (cmp.rs:37 as written: `filter` then `all` with `unwrap`) and `multiMirror` / `multiTryMirror`
+(multiops.rs:124 `try_ordered_multi_op_owned` *with* the `remove(&k)` it performs on the other operands) are what
+the driver runs; they equal the definitions the theorems above are about. -/
+
+/-- `is_disjoint` as written equals the fused form (no hypothesis), hence decides disjointness -/
+theorem C11_isDisjoint_mirror (a b : Treemap) :
+    isDisjointMirror o a b = isDisjoint o a b ∧
+    (TWF a → TWF b → isDisjointMirror Ops32.model a b = Spec.isDisjoint (elems a) (elems b)) :=
+  ⟨isDisjointMirror_eq o a b, fun ha hb => by
+    rw [isDisjointMirror_eq]; exact (C11_relations a b ha hb).2.2.2.1⟩
+
+/-- the multi-ops as the driver runs them (owned `intersection` / `difference` thread the shrinking other operands
+    through the loop) equal `multi` on operands with strictly ascending keys, hence equal the fold -/
+theorem C11_multi_mirror (op : MultiOp) (owned : Bool) (ts : List Treemap) (hts : ∀ t ∈ ts, TWF t) :
+    multiMirror Ops32.model op owned ts = multi Ops32.model op owned ts ∧
+    TWF (multiMirror Ops32.model op owned ts) ∧
+    elems (multiMirror Ops32.model op owned ts) = Spec.multi (specOf op) (ts.map elems) := by
+  have he := multiMirror_eq Ops32.model op owned ts (fun t ht => (hts t ht).sorted)
+  rw [he]
+  exact ⟨rfl, C11_multi op owned ts hts⟩
+
+/-- … and the `Result` forms: the first error, else `Ok` of the fold -/
+theorem C11_multiTry_mirror {ε : Type} (op : MultiOp) (owned : Bool) (items : List (Except ε Treemap))
+    (h : ∀ t, Except.ok t ∈ items → TWF t) :
+    multiTryMirror Ops32.model op owned items = multiTry Ops32.model op owned items :=
+  multiTryMirror_eq Ops32.model op owned items (fun t ht => (h t ht).sorted)
+
+example : multiMirror Ops32.model .and true [C10.tEx, C10.tEx, []] = [] := by decide +kernel
 
 /-! ### non-vacuity: the hypotheses are met by a three-partition treemap built through the public API -/
 
